@@ -11,6 +11,13 @@
 (*   populated (processors, then entities; on_add relays are queued since  *)
 (*   the world is disabled) -> loaded (on_world_load queued last)          *)
 (* then `Enable` (dispatch_enabled = True) releases the queue in order.    *)
+(* `Access` reaches the cached world through its handle again (handle(),   *)
+(* resource_map[...]): nothing happens.  For the descriptions `Again`      *)
+(* admits, a second round on the same handle object follows: `ClearHandle`,*)
+(* optionally `Disturb` (the first world's components mutate their         *)
+(* list/dict arguments in place, the referenced resource handles are       *)
+(* cleared: generation `gen` of the resources) and/or `Rewrite` (the file  *)
+(* now holds AltDesc), then `Reload`, `Enable`.                            *)
 (* With SmallStep the stages are separate steps (stage invariants); without*)
 (* it `Load(md)` is the composition — one action per public call — and the *)
 (* dumped graph is the test table replayed on the real classes.            *)
@@ -35,15 +42,19 @@ CONSTANTS PickDesc(_),        \* PickDesc(d): d is a description of the enumerat
           Lean,               \* BOOLEAN: forget the description once loaded (the instance dumped for replay:
                               \* states stay small; the declarative properties are checked in the other instances,
                               \* BigStepAgrees ties the two together)
+          Again(_),           \* Again(d): the second round is explored for description d
           AutoIdSkipsUsed, ImplicitMapsLinked
 
-VARIABLES desc,   \* the description (never changes)
+VARIABLES desc,   \* the description (changes only by Rewrite)
           pc,     \* "desc" | "new" | "defaults" | "transformed" | "populated" | "loaded" | "enabled" | "failed"
+                  \* | "cleared" | "rewritten" (second round, before the reload)
+          round,  \* 1 | 2
+          gen,    \* generation of the resource objects: cleared resource handles load a fresh object
           mode,   \* "-" until a load starts; file1/file2 collapse to "file" once loaded
           dicts,  \* working copies of the processor/component dicts (local to the load)
           w,      \* the world: procs, rows, next, enabled, queue, reg, log
           err     \* "none" or the exception class that left load()
-vars == <<desc, pc, mode, dicts, w, err>>
+vars == <<desc, pc, round, gen, mode, dicts, w, err>>
 
 -----------------------------------------------------------------------------
 (* Argument alphabet.  A description names its argument values by token;   *)
@@ -85,7 +96,7 @@ Toks == DOMAIN Shape
 ASSUME PrintT(<<"WORLDLOAD-SHAPES", Shape>>)
 
 \* Values inside dicts / instances: <<"raw", token>> (a JSON value as written), <<"obj", dotted name>>,
-\* <<"res", path>> (the loaded resource), <<"hdl", path>> (its handle), <<"none", "">> (Python None
+\* <<"res", path#generation>> (the loaded resource object), <<"hdl", path>> (its handle), <<"none", "">> (Python None
 \* produced by a lookup that found nothing), <<"err", class>>.
 Raw(t) == <<"raw", t>>
 
@@ -97,7 +108,9 @@ Decl(t) == CASE t \in {"CHandler", "PHandler"} -> {"on_add", "on_world_load"}
 Prio(t) == IF t = "PLate" THEN 5 ELSE 0
 DefaultTypes == <<"OnUpdateProcessor", "CoroutineProcessor">>
 
-AutoMark == <<"auto", 0>>       \* entity without "id"; explicit ids are <<"s", k>> (a string) or <<"i", n>> (integer n)
+AutoMark == <<"auto", 0>>       \* entity without "id"; explicit ids are <<"s", k>> (a string: 0 is "", 1 "hero", 2 "1"),
+                                \* <<"i", n>> (integer n; 0 is a legitimate id) or <<"b", 0>> (false)
+ResObj(path) == path \o "#" \o ToString(gen)      \* the object the resource's handle holds now
 NoEnt    == <<"-", 0>>
 NoWho    == <<"-", 0, 0>>
 NoDicts  == [procs |-> <<>>, ents |-> <<>>]
@@ -122,7 +135,7 @@ ObjectT(d) == MapDict(ObjMap, d)
 \* an unlinked intermediate map (D14), root_map[path] raises KeyError and root_map.get(path) is None.
 ResMap(v, sees) ==
     IF v[1] = "raw" /\ Matches(v[2], "res")
-    THEN IF sees THEN <<"res", Shape[v[2]].name>> ELSE <<"err", "KeyError">>
+    THEN IF sees THEN <<"res", ResObj(Shape[v[2]].name)>> ELSE <<"err", "KeyError">>
     ELSE IF v[1] = "raw" /\ Matches(v[2], "handle")
     THEN IF sees THEN <<"hdl", Shape[v[2]].name>> ELSE <<"none", "">>
     ELSE v
@@ -244,7 +257,7 @@ SetEnabled(x) == Release([x EXCEPT !.enabled = TRUE])
 Form(t) == IF Shape[t].k = "str" /\ Shape[t].pre = "" /\ Shape[t].mk \in {"obj", "res", "handle"}
            THEN Shape[t].mk ELSE "none"              \* "none": does not begin with a marker
 ExpArg(t) == CASE Form(t) = "obj"    -> <<"obj", Shape[t].name>>
-               [] Form(t) = "res"    -> <<"res", Shape[t].name>>
+               [] Form(t) = "res"    -> <<"res", ResObj(Shape[t].name)>>
                [] Form(t) = "handle" -> <<"hdl", Shape[t].name>>
                [] OTHER              -> Raw(t)
 ExpInst(who, c) == [who |-> who, type |-> c.type,
@@ -257,6 +270,12 @@ ResolvedDicts(d) == [procs |-> [i \in DOMAIN d.procs |-> ResolvedDict(d.procs[i]
 
 -----------------------------------------------------------------------------
 (* The pipeline                                                            *)
+
+\* what Rewrite puts into the file: one entity "hero" whose handler component takes a resource, a list and a handle
+AltDesc == [procs |-> << [type |-> "PB", args |-> <<"M7">>, kwargs |-> <<>>] >>,
+            ents  |-> << [id |-> <<"s", 1>>,
+                          comps |-> << [type |-> "CHandler", args |-> <<"R1", "L1">>, kwargs |-> << <<"val", "H2">> >>] >>] >>]
+ASSUME PrintT(<<"WORLDLOAD-ALTDESC", AltDesc>>)
 
 Stages == <<"new", "defaults", "transformed", "populated", "loaded">>
 StageNo(p) == CHOOSE i \in DOMAIN Stages : Stages[i] = p
@@ -282,18 +301,25 @@ Collapse(md) == IF IsFile(md) THEN "file" ELSE md
 Modes == {"file1", "file2", "dict", "bare"}
 
 Init == /\ PickDesc(desc)
-        /\ pc = "desc" /\ mode = "-" /\ dicts = NoDicts /\ w = NewWorld(TRUE) /\ err = "none"
+        /\ pc = "desc" /\ round = 1 /\ gen = 1 /\ mode = "-" /\ dicts = NoDicts /\ w = NewWorld(TRUE) /\ err = "none"
 
 Land(st, p, md) ==   \* common tail: publish a stage result
     /\ dicts' = st.dicts /\ w' = st.w /\ err' = st.err
     /\ pc' = IF st.err # "none" THEN "failed" ELSE p
     /\ mode' = IF p = "loaded" \/ st.err # "none" THEN Collapse(md) ELSE md
-    /\ desc' = IF Lean /\ (p = "loaded" \/ st.err # "none") THEN NoDesc ELSE desc
+    /\ desc' = IF Lean /\ ~Again(desc) /\ (p = "loaded" \/ st.err # "none") THEN NoDesc ELSE desc
+    /\ UNCHANGED <<round, gen>>
 
 Load(md) == /\ ~SmallStep /\ pc = "desc"
             /\ Land(Run(St0, 1, desc, md), "loaded", md)
 
-Begin(md) == /\ SmallStep /\ pc = "desc"
+\* second access of a cleared handle: the same handle object (hence the same mode) loads again
+Reload == /\ ~SmallStep /\ pc \in {"cleared", "rewritten"}
+          /\ Land(Run(St0, 1, desc, mode), "loaded", mode)
+
+Begin(md) == /\ SmallStep
+             /\ \/ pc = "desc" /\ md \in Modes
+                \/ pc \in {"cleared", "rewritten"} /\ md = mode
              /\ Land(Apply("new", St0, desc, md), "new", md)
 
 Step == /\ SmallStep /\ pc \in {"new", "defaults", "transformed", "populated"}
@@ -302,9 +328,27 @@ Step == /\ SmallStep /\ pc \in {"new", "defaults", "transformed", "populated"}
 
 Enable == /\ pc = "loaded"
           /\ w' = SetEnabled(w) /\ pc' = "enabled"
-          /\ UNCHANGED <<desc, mode, dicts, err>>
+          /\ UNCHANGED <<desc, round, gen, mode, dicts, err>>
 
-Next == (\E md \in Modes : Load(md)) \/ (\E md \in Modes : Begin(md)) \/ Step \/ Enable
+\* Handle.__call__ on a cached handle (handle() again, resource_map[key] again): the cached world, nothing else
+Access == /\ pc \in {"loaded", "enabled"} /\ mode # "bare"
+          /\ UNCHANGED vars
+
+SecondRound == round = 1 /\ mode = "file" /\ Again(desc)
+ClearHandle == /\ pc = "enabled" /\ SecondRound
+               /\ pc' = "cleared" /\ round' = 2 /\ w' = NewWorld(TRUE)
+               /\ UNCHANGED <<desc, gen, mode, dicts, err>>
+\* the components of the first world mutate their list/dict arguments in place (no trace in the model: the next
+\* world is built from the file, not from them) and the resource handles are cleared
+Disturb == /\ pc = "cleared" /\ gen = 1
+           /\ gen' = 2
+           /\ UNCHANGED <<desc, pc, round, mode, dicts, w, err>>
+Rewrite == /\ pc = "cleared"
+           /\ desc' = AltDesc /\ pc' = "rewritten"
+           /\ UNCHANGED <<round, gen, mode, dicts, w, err>>
+
+Next == (\E md \in Modes : Load(md)) \/ (\E md \in Modes \cup {"file"} : Begin(md)) \/ Reload \/ Step \/ Enable
+        \/ Access \/ ClearHandle \/ Disturb \/ Rewrite
 Spec == Init /\ [][Next]_vars
 
 -----------------------------------------------------------------------------
@@ -374,12 +418,13 @@ OnEnable == (pc = "enabled") =>
 
 \* the one-step Load of the dumped instance is the composition of the stages checked here
 BigStepAgrees == (SmallStep /\ pc \in {"loaded", "failed"}) =>
-                     \E md \in Modes : /\ Collapse(md) = mode
+                     \E md \in Modes \cup {"file"} : /\ Collapse(md) = mode
                                        /\ [dicts |-> dicts, w |-> w, err |-> err] = Run(St0, 1, desc, md)
 
 NoFailure == pc # "failed"      \* well-formed descriptions load
 
-TypeOK == /\ pc \in {"desc", "new", "defaults", "transformed", "populated", "loaded", "enabled", "failed"}
+TypeOK == /\ pc \in {"desc", "new", "defaults", "transformed", "populated", "loaded", "enabled", "failed", "cleared", "rewritten"}
+          /\ round \in {1, 2} /\ gen \in {1, 2} /\ (round = 1 => gen = 1)
           /\ mode \in Modes \cup {"-", "file"}
           /\ err \in {"none", "KeyError"}
           /\ (pc = "failed") <=> (err # "none")
